@@ -106,6 +106,42 @@ pub fn run(tier: Tier) -> i32 {
                     }
                 }
             }
+            // the same pairs spoken as the fractional part of a decimal (languages whose fraction is read as a
+            // number): the fraction is the first number or the allowed fusion, never another fusion
+            if !matches!(l, L::En | L::De) {
+                let int_word = spell::spell(l, 3, Var::default());
+                for a in lo..hi {
+                    for b in 0..100u64 {
+                        acc.states += 1;
+                        acc.traces += 1;
+                        let s = format!("{int_word} {} {} {}", l.sep(), sp[a as usize], sp[b as usize]);
+                        let got = guard(|| replace_numbers_in_text(&s, &lang, 0.0)).unwrap_or_else(|p| p);
+                        let m = l.mark();
+                        let mut allowed: Vec<String> = vec![format!("3{m}{a} {b}")];
+                        let mut cat = nm[a as usize].clone();
+                        cat.extend(nm[b as usize].iter().cloned());
+                        for (c, mm) in &all_nm {
+                            if *mm == cat {
+                                allowed.push(format!("3{m}{c}"));
+                            }
+                        }
+                        if a == 0 {
+                            allowed.push(format!("3{m}0{b}"));
+                        }
+                        if !allowed.contains(&got) {
+                            ctx.report(acc, Violation {
+                                lang: l.code().into(),
+                                entry: "replace_text".into(),
+                                input: s,
+                                threshold: Some(0.0),
+                                clause: "two complete numbers below 100 after a decimal separator: the fraction is the first one (or the number spelled by exactly those words), the second stays apart".into(),
+                                expected: allowed.join(" | "),
+                                observed: got,
+                            });
+                        }
+                    }
+                }
+            }
             // the same pairs in each accepted orthographic variant (aliases, regional forms, split words...)
             for (vname, v) in spell::axes(l).into_iter().skip(1) {
                 if l == L::Fr && v.hyph == 1 {
